@@ -212,6 +212,15 @@ def run (s : Sys) : List Ev → Sys
 def sysInit (maxWait : Int) (notifies refuseNew : Bool) : Sys :=
   ⟨⟨ListenerRunning, true, true, true, true⟩, [], 0, false, false, 0, maxWait, false, 0, notifies, refuseNew⟩
 
+/-- a listener that binds no port (`bind_port: false`): it owns no socket, `Start` ignores it (it stays Inited); its
+connections are handed to its `OnAccept` by a `use_original_dst` listener (`activeRawConn.UseOriginalDst`), which does
+not look at the state of the listener it hands the connection to. -/
+def lisVirtual : Lis := lisInit false false
+
+/-- a virtual listener with `n` established (idle) connections -/
+def sysVirtual (maxWait : Int) (notifies refuseNew : Bool) (n : Nat) : Sys :=
+  ⟨lisVirtual, List.replicate n ⟨.idle, 0, 0, 0, 0⟩, 0, false, false, 0, maxWait, false, 0, notifies, refuseNew⟩
+
 /-- well-formed: the gauge equals the number of active requests -/
 def Sys.wf (s : Sys) : Prop := s.gauge = (countActive s.conns : Int)
 
